@@ -385,6 +385,7 @@ def dedup(ck, c, f, reject):
     vcache = [k for k, (kk, hf) in c.km.caches.items() if kk == "Vertex"][0]
     bu_ok = False
     fwd = bwd = False
+    live = []
     shapes = []
     for b, i, x in reject:
         fs = {(s_, p_) for s_, p_, c_ in cn.facts(b)}
@@ -399,9 +400,13 @@ def dedup(ck, c, f, reject):
                 bu_ok = True
         elif (h, False) in fs:
             E = r
+            # the scan runs over stored edges, deleted ones included (deferred deletion): the returned edge must be live -
+            # the cache-guided sibling never sees a deleted edge, because deletion unlinks it from the vertex lists
+            live.append(("is_deleted(%s)" % E, False) in fs or any(re.fullmatch(r"edge_deleted_\[.*\]", s_) and p_ is False and E.strip("()") in s_ or (s_ == "%s.is_deleted()" % E and p_ is False) for s_, p_ in fs))
             if {(ceq("edge(%s).from_vertex()" % E, "P0"), True), (ceq("edge(%s).to_vertex()" % E, "P1"), True)} <= fs:
                 fwd = True
             if {(ceq("edge(%s).from_vertex()" % E, "P1"), True), (ceq("edge(%s).to_vertex()" % E, "P0"), True)} <= fs:
                 bwd = True
     (ck.ok if bu_ok else lambda r, w, t: ck.violate(r, w, t, "C11.dedup:cache"))("C11.dedup", f.where, "add_edge (vertex cache on) returns the edge of a halfedge h leaving the from-vertex only under the atomic fact to(h) == to-vertex (%s)" % shapes[-1:])
+    (ck.ok if (live and all(live)) else lambda r, w, t: ck.violate(r, w, t, "C11.dedup:live"))("C11.dedup", f.where, "add_edge (linear scan) returns an existing edge only under the fact that it is not deleted (%d return site(s), %d guarded)" % (len(live), sum(live)))
     (ck.ok if (fwd and bwd) else lambda r, w, t: ck.violate(r, w, t, "C11.dedup:linear"))("C11.dedup", f.where, "add_edge (linear scan) returns an existing edge for (from,to) and for (to,from), each under both atomic endpoint facts (forward %s, backward %s)" % (fwd, bwd))
